@@ -73,9 +73,150 @@ pub fn spans(bytes: &[u8], grammar: &[Field]) -> Option<Vec<Span>> {
     Some(out)
 }
 
+/// Shape mutations inside a serialized batch Merkle opening (vector count byte, then per vector a digest count byte and the
+/// digests); the outer length prefix is kept consistent. `dl` = serialized digest length.
+fn apply_inner_paths(bytes: &[u8], s: &Span, m: &str, dl: usize) -> Option<Vec<u8>> {
+    let start = s.off + s.width;
+    let body = &bytes[start..start + s.len];
+    // parse
+    let nv = *body.first()? as usize;
+    let mut vecs: Vec<Vec<Vec<u8>>> = vec![];
+    let mut p = 1usize;
+    for _ in 0..nv {
+        let cnt = *body.get(p)? as usize;
+        p += 1;
+        let mut v = vec![];
+        for _ in 0..cnt {
+            v.push(body.get(p..p + dl)?.to_vec());
+            p += dl;
+        }
+        vecs.push(v);
+    }
+    if p != body.len() {
+        return None;
+    }
+    match m {
+        "inner-drop-last-digest" => {
+            let v = vecs.iter_mut().rev().find(|v| !v.is_empty())?;
+            v.pop();
+        },
+        "inner-add-digest" => {
+            let d = vecs.iter().flatten().next().cloned().unwrap_or(vec![0x11; dl]);
+            let v = vecs.first_mut()?;
+            if v.len() >= 255 {
+                return None;
+            }
+            v.push(d);
+        },
+        "inner-drop-vector" => {
+            vecs.pop()?;
+        },
+        "inner-add-empty-vector" => {
+            if vecs.len() >= 255 {
+                return None;
+            }
+            vecs.push(vec![]);
+        },
+        "inner-move-digest" => {
+            if vecs.len() < 2 {
+                return None;
+            }
+            let d = vecs[0].pop()?;
+            vecs[1].push(d);
+        },
+        "inner-empty-vector" => {
+            let v = vecs.iter_mut().find(|v| !v.is_empty())?;
+            v.clear();
+        },
+        _ => return None,
+    }
+    let mut nb: Vec<u8> = vec![vecs.len() as u8];
+    for v in &vecs {
+        nb.push(v.len() as u8);
+        for d in v {
+            nb.extend_from_slice(d);
+        }
+    }
+    let mut out = bytes[..s.off].to_vec();
+    let mut pre = vec![0u8; s.width];
+    wr(&mut pre, 0, s.width, nb.len() as u64);
+    out.extend(pre);
+    out.extend(nb);
+    out.extend_from_slice(&bytes[start + s.len..]);
+    Some(out)
+}
+
 /// Applies one mutation; `chunk` is the element size used for chunk mutations. Returns None when not applicable.
 pub fn apply(bytes: &[u8], sp: &[Span], mu: &Mutation, chunk: usize) -> Option<Vec<u8>> {
     let s = sp.iter().find(|s| s.name == mu.field)?;
+    if mu.m.starts_with("inner-") {
+        return apply_inner_paths(bytes, s, &mu.m, chunk);
+    }
+    if mu.m.starts_with("add-layer-copies:") || mu.m == "remove-last-layer" {
+        // s is fri.num_layers; the layer groups fl<k>.values / fl<k>.paths follow it
+        let n = rd(bytes, s.off, 1)? as usize;
+        if n == 0 {
+            return None;
+        }
+        let lv = sp.iter().find(|x| x.name == format!("fl{}.values", n))?;
+        let lp = sp.iter().find(|x| x.name == format!("fl{}.paths", n))?;
+        let (g0, g1) = (lv.off, lp.off + lp.width + lp.len);
+        let mut b = bytes.to_vec();
+        match mu.m.as_str() {
+            "remove-last-layer" => {
+                b.drain(g0..g1);
+                b[s.off] = (n - 1) as u8;
+            },
+            m => {
+                let copies: usize = m.strip_prefix("add-layer-copies:")?.parse().ok()?;
+                if n + copies > 255 {
+                    return None;
+                }
+                let group = bytes[g0..g1].to_vec();
+                for _ in 0..copies {
+                    let at = g1;
+                    b.splice(at..at, group.iter().cloned());
+                }
+                b[s.off] = (n + copies) as u8;
+            },
+        }
+        return Some(b);
+    }
+    if mu.m.starts_with("lag-") {
+        // content: one count byte, then `count` elements of `chunk` bytes
+        let start = s.off + s.width;
+        let body = &bytes[start..start + s.len];
+        let n = *body.first()? as usize;
+        if body.len() != 1 + n * chunk {
+            return None;
+        }
+        let mut nb = body.to_vec();
+        match mu.m.as_str() {
+            "lag-drop-element" if n >= 1 => {
+                nb.truncate(1 + (n - 1) * chunk);
+                nb[0] = (n - 1) as u8;
+            },
+            "lag-add-element" if n >= 1 && n < 255 => {
+                let last = nb[1 + (n - 1) * chunk..].to_vec();
+                nb.extend(last);
+                nb[0] = (n + 1) as u8;
+            },
+            "lag-make-frame" if n == 0 => {
+                nb[0] = 4;
+                for k in 0..4 * chunk {
+                    nb.push(if k % chunk == 0 { 3 } else { 0 });
+                }
+            },
+            _ => return None,
+        }
+        let mut out = bytes[..s.off].to_vec();
+        let mut pre = vec![0u8; s.width];
+        wr(&mut pre, 0, s.width, nb.len() as u64);
+        out.extend(pre);
+        out.extend(nb);
+        out.extend_from_slice(&bytes[start + s.len..]);
+        return Some(out);
+    }
     let mut b = bytes.to_vec();
     let maxv: u64 = if s.width == 8 { u64::MAX } else { (1u64 << (8 * s.width)) - 1 };
     if s.kind == "scalar" {
